@@ -84,4 +84,6 @@ def obligations(tier):
     obs.append(Ob("twin.some_exit", mod, "twin_some_exit", {}, expect="refute", timeout=60))
     obs.append(Ob("twin.some_pass", mod, "twin_some_pass", {}, expect="refute", timeout=60))
     obs.append(Ob("L2.update_order", mod, "update_order", {}, timeout=120))
+    # the set compared with git's status paths is keyed by canonical relative paths, however the config spells them
+    obs.append(Ob("L3.configured_paths_canonical", "c03.py", "merge_file_patterns", {}, timeout=t))
     return obs
